@@ -11,7 +11,7 @@ from vf.common import Violation
 PROP = "C08"
 LEVEL = "exploration"
 RULE = ("seeded random histories over append, prepend, extend, pre_extend, remove, pop_back, pop_front, "
-        "move_to_front, move_to_back, move_after (incl. node==after), rotate(both directions); target nodes "
+        "move_to_front, move_to_back, move_after (incl. node==after), rotate(both directions), extend/pre_extend with lazy iterables that observe len(l) while consumed and may fail midway; target nodes "
         "drawn from the model; each history is run once per payload class (distinct ints, all equal, NaN, "
         "few-valued, __eq__ raising) and 'long' histories start from 1200 (quick) / 3000 (thorough) equal "
         "payloads. After every operation the oracle compares forward identity sequence, list(l), len, backward "
@@ -27,7 +27,7 @@ SHARD_TIMEOUT = {"quick": 600, "thorough": 3600}
 
 PAYLOADS = ["distinct", "equal", "nan", "few", "raising_eq"]
 OPS = ["append", "prepend", "extend", "pre_extend", "remove", "pop_back", "pop_front", "move_to_front",
-       "move_to_back", "move_after", "rotate_fb", "rotate_bf"]
+       "move_to_back", "move_after", "rotate_fb", "rotate_bf", "extend_lazy", "pre_extend_lazy"]
 
 
 class EqCalled(Exception):
@@ -226,6 +226,59 @@ def run_case(case, res):
                         model[0:0] = new
                     if len(new) != k or any(x.data is not p for x, p in zip(new, want)):
                         raise Violation("forward-sequence", f"{desc} did not add the given payloads in order", {})
+                    for x in new:
+                        payload_of[id(x)] = x.data
+                elif op in ("extend_lazy", "pre_extend_lazy"):
+                    # a lazy iterable that (a) looks at the list while it is being consumed and (b) may fail midway; the
+                    # caller handles the error. What was consumed before the error is in the list, everything is consistent.
+                    ps = [fresh() for _ in range(k + 1)]
+                    fail_at = (a % (k + 2)) if b % 2 else None
+                    seen_len = []
+                    base_len = n
+
+                    class _Stop(Exception):
+                        pass
+
+                    def lazy():
+                        for j, p in enumerate(ps):
+                            if fail_at is not None and j == fail_at:
+                                raise _Stop()
+                            seen_len.append((j, len(l)))
+                            yield p
+                    desc = f"{op}({k + 1} lazily produced items, failing at {fail_at})"
+                    try:
+                        (l.extend if op == "extend_lazy" else l.pre_extend)(lazy())
+                    except _Stop:
+                        pass
+                    took = ps if fail_at is None else ps[:fail_at]
+                    for j, ln in seen_len:
+                        if ln != base_len + j:
+                            raise Violation("len-mismatch", f"{desc}: while the {j}-th new item was being produced len(l) was "
+                                            f"{ln}, the list held {base_len + j} elements", {})
+                    new = []
+                    if op == "extend_lazy":
+                        node = l.tail
+                        # find the new nodes by walking back from the real end of the forward chain
+                        chain = []
+                        x = l.head
+                        while x is not None and len(chain) <= n + len(ps) + 1:
+                            chain.append(x)
+                            x = x.next_node
+                        new = chain[n:]
+                        want = took
+                        model.extend(new)
+                    else:
+                        chain = []
+                        x = l.head
+                        while x is not None and len(chain) <= n + len(ps) + 1:
+                            chain.append(x)
+                            x = x.next_node
+                        new = chain[:max(0, len(chain) - n)]
+                        want = list(reversed(took))
+                        model[0:0] = new
+                    if len(new) != len(took) or any(x.data is not p for x, p in zip(new, want)):
+                        raise Violation("forward-sequence", f"{desc}: the list does not hold exactly the {len(took)} items that "
+                                        f"were consumed before the error, in order", {})
                     for x in new:
                         payload_of[id(x)] = x.data
                 elif op in ("pop_back", "pop_front"):
